@@ -6,6 +6,7 @@ import (
 	"errors"
 	"fmt"
 	"sync"
+	"time"
 
 	"go.uber.org/multierr"
 	vrt "go.uber.org/zap/internal/vrt"
@@ -201,4 +202,21 @@ func VC13LockExclusive() {
 	}()
 	wg.Wait()
 	vrt.Assert("all-operations-ran", s.writes+s.syncs == 2)
+}
+
+//verif: prop=C13 bounds="BufferedWriteSyncer of Size 1..4 over a recording sink: two writes of 0..6 symbolic bytes each (buffered, exactly fitting, larger than the buffer) report (len(p), nil) and leave the caller's slice untouched"
+func VC13Buffered() {
+	S := vrt.IntRange("S", 1, 4)
+	sink := &vBytesSink{}
+	b := &BufferedWriteSyncer{WS: sink, Size: S, FlushInterval: time.Hour, Clock: &vTickClock{ch: make(chan time.Time, 1)}}
+	for i := 0; i < 2; i++ {
+		L := vrt.IntRange(fmt.Sprintf("len%d", i), 0, 6)
+		p := vrt.Bytes(fmt.Sprintf("p%d", i), L)
+		orig := string(p)
+		n, err := b.Write(p)
+		vrt.Assert("reports-len-p-and-nil", n == L && err == nil)
+		vrt.Assert("caller-buffer-untouched", string(p) == orig)
+	}
+	vrt.Assert("stop-nil", b.Stop() == nil)
+	vrt.Observe("sink-writes", len(sink.writes))
 }
